@@ -1,3 +1,4 @@
+import Props.CodecFacts
 import Props.C08
 open Model.C08
 #print axioms cbor_roundtrip
@@ -10,3 +11,25 @@ open Model.C08
 #print axioms reencode_same
 #print axioms encoding_ignores_map_order
 #print axioms linkkey_write_read
+open Model.CodecFacts in
+#print axioms atlas_entry_match_model
+open Model.CodecFacts in
+#print axioms atlas_entryV1_match_model
+open Model.CodecFacts in
+#print axioms atlas_manifest_match_model
+open Model.CodecFacts in
+#print axioms signed_keys_match_model
+open Model.CodecFacts in
+#print axioms signed_map_exact
+open Model.CodecFacts in
+#print axioms hashable_exact
+open Model.CodecFacts in
+#print axioms create_flow
+open Model.CodecFacts in
+#print axioms verify_flow
+open Model.CodecFacts in
+#print axioms presign_flow
+open Model.CodecFacts in
+#print axioms decrypt_flow
+open Model.CodecFacts in
+#print axioms jsonable_v2_flow
